@@ -331,7 +331,16 @@ func (g *Gen) Next() Step {
 				continue
 			}
 			subs := []string{"get", "set", "insert", "remove"}
-			return Step{Op: op, C: c.CID, Sub: subs[r.Intn(4)], OOB: uint64(r.Pick([]int{6, 2, 1, 1})) * uint64(1+r.Intn(3))}
+			st := Step{Op: op, C: c.CID, Sub: subs[r.Intn(4)], OOB: uint64(r.Pick([]int{6, 2, 1, 1})) * uint64(1+r.Intn(3))}
+			if (st.Sub == "set" || st.Sub == "insert") && r.Chance(0.6) {
+				limit := g.slotLimit(c)
+				v := VSpec{S: &[2]int{g.sid(), r.Range(limit+1, limit*2)}} // too large to inline
+				if r.Chance(0.3) {
+					v = g.genScalar(limit)
+				}
+				st.V = &v
+			}
+			return st
 		case "m.set", "m.get", "m.has", "m.remove":
 			c := g.pickTarget(true, false)
 			if c == nil {
